@@ -93,6 +93,7 @@ def compare_views(ctx, prop: str, mailbox: str = 'INBOX') -> None:
 
 class C02(Profile):
     id = 'C02'
+    BACKENDS = ('dict', 'dict', 'dict', 'maildir')
     level = 'exploration'
     quick_budget_s = 40.0
     thorough_budget_s = 420.0
@@ -113,9 +114,11 @@ class C02(Profile):
     WEIGHTS = [3, 7, 4, 2, 2, 3, 2, 1, 1, 0, 1]
 
     def gen(self, rng, tier):
+        from .common import backends, finish_cfg
         case = gen_concurrent_case(rng, tier, weights=self.WEIGHTS,
-                                   len_range=(8, 30))
-        return add_quiescent_points(case, rng)
+                                   len_range=(8, 30),
+                                   backends=backends(self.BACKENDS))
+        return finish_cfg(add_quiescent_points(case, rng), rng)
 
     def run(self, case, trace=False):
         def after(ctx, i, step, cmds):
